@@ -18,3 +18,37 @@ distribution = poolcases.distribution
 def gen(rng, tier):
     n = {"quick": 120, "thorough": 1500, "search": 600}[tier]
     return [poolcases.gen_case(rng, npools=1 if i % 3 else 2) for i in range(n)]
+
+
+def extra(tier, rng, build_cache, known):
+    """The schedule the property asks about (pause point in try_cancel_task): the scheduling thread
+    moves from the cancel target (which parks) to another task between the lookup of the target's
+    thread and the SIGVTALRM. Real threads and a real signal, in a child process. The bystander being
+    cancelled is the recorded finding `signal_hits_current_coroutine`; anything else is reported."""
+    from .. import core
+    key = ((), False)
+    if key not in build_cache:
+        build_cache[key], _ = core.build_harness((), False)
+    n = 2 if tier == "quick" else 6
+    cases = [{"id": i, "clock": "0", "pools": [], "origin": "extra", "kind": "forced_cancel",
+              "ops": [{"op": "forced_cancel"}]} for i in range(n)]
+    res = core.run_harness(build_cache[key], AREA, cases, isolate=True, timeout_ms=40000, jobs=2)
+    reproduced, conclusive, viol = 0, 0, []
+    for c in cases:
+        r = res[c["id"]]
+        fc = r[0].get("forced_cancel") if r and isinstance(r[0], dict) else None
+        if not fc or not fc.get("h4") or not fc.get("bystander_started"):
+            continue                      # the forced schedule was not reached (loaded machine): no verdict
+        conclusive += 1
+        if not fc.get("bystander_finished"):
+            reproduced += 1
+    found = []
+    if reproduced:
+        k = [k for k in known if k.get("defect") == "signal_hits_current_coroutine" and k.get("status") == "known"]
+        if k:
+            found = k
+        else:
+            viol.append({"case": cases[0], "obs": res[cases[0]["id"]], "tags": ["signal_hits_current_coroutine"],
+                         "note": "a cancel aimed at a parked task cancelled the task that was running when the signal arrived"})
+    return {"info": {"forced_cancel_runs": len(cases), "forced_cancel_conclusive": conclusive,
+                     "forced_cancel_bystander_cancelled": reproduced}, "violations": viol, "known_reproduced": found}
